@@ -200,6 +200,27 @@ func (env *SpecEnv) eval(e SExpr) Val {
 			hi = env.eval(x.Hi).T
 		}
 		return Val{T: fmt.Sprintf("(mkslice (s_arr %s) (+ (s_off %s) %s) (- %s %s) (- (s_cap %s) %s))", base.T, base.T, lo, hi, lo, base.T, lo), S: base.S, Go: base.Go}
+	case *STupleSel:
+		call, ok := x.X.(*SCall)
+		if !ok {
+			env.fail("tuple projection needs a call: %s", specString(x))
+		}
+		f := env.nopol().eval(call.Fn)
+		sig, ok := sigOf(f.Go)
+		if !ok {
+			env.fail("cannot call %s", specString(call.Fn))
+		}
+		var args []Val
+		for _, a := range call.Args {
+			args = append(args, env.nopol().eval(a))
+		}
+		rs := ex.applyPure(f, sig, args)
+		var idx int
+		fmt.Sscanf(x.I, "%d", &idx)
+		if idx < 0 || idx >= len(rs) {
+			env.fail("tuple index out of range: %s", specString(x))
+		}
+		return rs[idx]
 	case *SLambda:
 		env.fail("lambda is only allowed as the right-hand side of a ghost update")
 	case *STypeAssert:
@@ -759,12 +780,15 @@ func (env *SpecEnv) ghostField(t types.Type, name string) (*GhostField, string, 
 		}
 	}
 	c.typeScopePkg = env.ex.prog.Pkgs[obj.Pkg().Path()]
-	if c.typeScopePkg == nil {
-		c.typeScopePkg = env.ex.prog.Pkgs[owner.Path]
-	}
 	c.typeScopePos = obj.Pos() + token.Pos(len(obj.Name())) + 1
 	if st, ok := nt.Origin().Underlying().(*types.Struct); ok && st.NumFields() > 0 {
 		c.typeScopePos = st.Field(0).Pos()
+	}
+	if c.typeScopePkg == nil {
+		// type declared outside the repository: the ghost type is resolved at package level of
+		// the package that declares the ghost field
+		c.typeScopePkg = env.ex.prog.Pkgs[owner.Path]
+		c.typeScopePos = token.NoPos
 	}
 	c.typeScopeNamed = nt.Origin()
 	gty, gs := c.resolveType(g.Type)
@@ -944,6 +968,15 @@ func (env *SpecEnv) evalModifies(c *Contract) []modTarget {
 				out = append(out, modTarget{key: ex.memKey(v.S.Elem), obj: fmt.Sprintf("(s_arr %s)", v.T), sort: ex.w.memSort(v.S.Elem)})
 				continue
 			}
+			if id, ok := x.Fn.(*SIdent); ok && id.Name == "all" {
+				// all(x.f): location f of EVERY object (no frame for this heap array)
+				sub := &Contract{Modifies: []SExpr{x.Args[0]}}
+				for _, t := range env.evalModifies(sub) {
+					t.obj = "*"
+					out = append(out, t)
+				}
+				continue
+			}
 			if id, ok := x.Fn.(*SIdent); ok && id.Name == "mapof" {
 				v := env.eval(x.Args[0])
 				mt, ok := goMapType(v.Go)
@@ -1057,6 +1090,9 @@ func (ex *Exec) frameCond(pre, post *State, key string, s *Sort, targets []modTa
 	var excl []string
 	for _, t := range targets {
 		if t.key == key {
+			if t.obj == "*" {
+				return "true"
+			}
 			excl = append(excl, sNot(sEq("r", t.obj)))
 		}
 	}
